@@ -170,9 +170,16 @@ type relayEdit struct {
 }
 
 type relayStats struct {
-	mu     sync.Mutex
-	frames [2][]int // serialized sizes of frames forwarded so far
-	order  []int    // direction of every frame in the order the relay took them
+	mu      sync.Mutex
+	applied bool     // the edit really changed the bytes in transit (its frame came and was long enough)
+	frames  [2][]int // serialized sizes of frames forwarded so far
+	order   []int    // direction of every frame in the order the relay took them
+}
+
+func (st *relayStats) markApplied() {
+	st.mu.Lock()
+	st.applied = true
+	st.mu.Unlock()
 }
 
 func readFrame(src *bufpipe.Conn) (hdr, body []byte, ok bool) {
@@ -215,17 +222,21 @@ func pump(src, dst *bufpipe.Conn, dir int, ed *relayEdit, st *relayStats, stop *
 				if ed.off < len(raw) {
 					out = append([]byte{}, raw...)
 					out[ed.off] ^= ed.val
+					st.markApplied()
 				}
 			case "insert":
 				out = append([]byte{0, 0, 0, 0, 0}, raw...)
+				st.markApplied()
 			case "drop":
 				out = nil
+				st.markApplied()
 			case "split":
 				if n >= 2 {
 					k := int(n) / 2
 					a := refcodec.Frame{Flag: 0, Len: uint32(k), Body: body[:k]}
 					b := refcodec.Frame{Flag: hdr[0], Len: n - uint32(k), Body: body[k:]}
 					out = append(a.Bytes(), b.Bytes()...)
+					st.markApplied()
 				}
 			case "merge":
 				// this frame and the next one of the same direction re-framed as ONE frame carrying
@@ -240,6 +251,7 @@ func pump(src, dst *bufpipe.Conn, dir int, ed *relayEdit, st *relayStats, stop *
 				idx++
 				m := refcodec.Frame{Flag: hdr2[0], Len: n + uint32(len(body2)), Body: append(append([]byte{}, body...), body2...)}
 				out = m.Bytes()
+				st.markApplied()
 			}
 		}
 		idx++
@@ -267,14 +279,20 @@ type relayShape struct {
 const relayEditTimeout = 600 * time.Millisecond
 
 type relayOut struct {
-	hsOK, appOK   bool
-	resumed       bool // the client reports that it resumed a cached session
+	hsOK, appOK      bool
+	resumed          bool // the client reports that it resumed a cached session
 	cMethod, sMethod string
-	st            *relayStats
+	st               *relayStats
 }
 
 // relayRun performs one handshake (fresh or resumed) through the relay; reports whether both
 // handshakes succeeded and whether application messages were then delivered both ways.
+func (o relayOut) applied() bool {
+	o.st.mu.Lock()
+	defer o.st.mu.Unlock()
+	return o.st.applied
+}
+
 func relayRun(sh relayShape, cache *security.SessionCache, ed *relayEdit) (o relayOut) {
 	// the client's view of the server address is the server's real one (FS names the endpoint)
 	c1, r1 := bufpipe.Pair("10.0.0.1:1111", "10.0.0.2:9618")
@@ -427,7 +445,7 @@ func runRelay(c *Ctx) error {
 		c.Res.Mismatches = append(c.Res.Mismatches, Mismatch{Label: "relay: " + label, Ops: []string{what}, Real: []string{"precondition failed"}, Model: []string{"precondition holds"}})
 	}
 	shapes := relayShapes(mat)
-	planned, skipped := 0, 0
+	planned, skipped, notApplied := 0, 0, 0
 	for _, sh := range shapes {
 		sh := sh
 		security.ClearSessionCache()
@@ -504,7 +522,7 @@ func runRelay(c *Ctx) error {
 		}
 		// run the edits: fresh handshakes are independent of each other (own cache, own pipes) and run
 		// eight at a time; resumed ones share the process-wide cache and run one by one
-		type editRes struct{ ran, hs, app bool }
+		type editRes struct{ ran, hs, app, applied bool }
 		results := make([]editRes, len(edits))
 		if sh.resumed {
 			for i := range edits {
@@ -513,7 +531,7 @@ func runRelay(c *Ctx) error {
 				}
 				e := edits[i]
 				ro := relayRun(sh, cache, &e)
-				results[i] = editRes{true, ro.hsOK, ro.appOK}
+				results[i] = editRes{true, ro.hsOK, ro.appOK, ro.applied()}
 			}
 		} else {
 			sem := make(chan struct{}, 8)
@@ -526,7 +544,7 @@ func runRelay(c *Ctx) error {
 					defer func() { <-sem }()
 					e := edits[i]
 					ro := relayRun(sh, security.NewSessionCache(), &e)
-					results[i] = editRes{true, ro.hsOK, ro.appOK}
+					results[i] = editRes{true, ro.hsOK, ro.appOK, ro.applied()}
 				}(i)
 			}
 			wg.Wait()
@@ -539,6 +557,14 @@ func runRelay(c *Ctx) error {
 				continue
 			}
 			hs, app := results[i].hs, results[i].app
+			if !results[i].applied {
+				// the edited run's frame never came or was shorter than in the unmodified run (a random
+				// part of the handshake, e.g. the FS directory name, varies in length): nothing was
+				// changed in transit, so the run says nothing about the property
+				c.Count("edit-not-applied:" + sh.name)
+				notApplied++
+				continue
+			}
 			c.Distinct(fmt.Sprintf("%s|%+v", sh.name, ed), true)
 			c.Count("shape:" + sh.name + ":" + ed.kind)
 			if hs && app {
@@ -552,6 +578,10 @@ func runRelay(c *Ctx) error {
 	}
 	c.Res.Distribution["edits-planned"] = planned
 	c.Res.Distribution["edits-skipped"] = skipped
+	c.Res.Distribution["edits-not-applied"] = notApplied
+	if notApplied*20 > planned {
+		obligation("not-applied", fmt.Sprintf("%d of %d planned edits never changed a byte in transit", notApplied, planned))
+	}
 	if skipped*50 > planned {
 		obligation("skipped", fmt.Sprintf("%d of %d planned edits could not be run (the session to resume could not be established)", skipped, planned))
 	}
